@@ -185,6 +185,7 @@ def run(tier, out, model_ok, proof):
     if model_ok:
         tcases = [c for c in cases if c["id"].startswith("p")]
         g, tcr, mm, mism = treecorr.run_tree(tcases)
+        treecorr.placed_check(mm, tcases, out)
         for x in mism[:30]:
             out.broken.append({"what": "directive-layer model and implementation disagree: " + x["what"],
                                "detail": {n: bytes.fromhex(h).decode("latin1") for n, h in x["case"]["files"].items()}})
